@@ -8,7 +8,8 @@
 //! stdout: one JSON object per line
 //!   {"walk": [paths sent to the consumer of Walk::run, sorted, with repetitions],
 //!    "scan": [those that pass FileInfo (fs::metadata) + the --min/--max filter of scan_files],
-//!    "sel_file": "0101..", "sel_dir": "0101.."   (PathSelector on every path of "eval")}
+//!    "sel_file": "0101..", "sel_dir": "0101.."   (PathSelector on every path of "eval"),
+//!    "not_excl": "0101.."  (no --exclude pattern matches the path fully)}
 //! or {"error": "..."}.
 use std::io::{BufRead, Write};
 use std::sync::Mutex;
@@ -94,14 +95,23 @@ fn run_case(case: &Value) -> Result<Value, String> {
     found.sort();
     scanned.sort();
 
+    // the same selector without the include patterns: tells whether an --exclude pattern matches fully
+    let mut only_excl = config.clone();
+    only_excl.name_patterns = vec![];
+    only_excl.path_patterns = vec![];
+    let excl_selector = only_excl
+        .path_selector(&base_dir)
+        .map_err(|e| format!("Invalid pattern: {e}"))?;
     let mut sel_file = String::new();
     let mut sel_dir = String::new();
+    let mut not_excl = String::new();
     for p in strs(&case["eval"]) {
         let p = Path::from(&p);
         sel_file.push(if path_selector.matches_full_path(&p) { '1' } else { '0' });
         sel_dir.push(if path_selector.matches_dir(&p) { '1' } else { '0' });
+        not_excl.push(if excl_selector.matches_full_path(&p) { '1' } else { '0' });
     }
-    Ok(json!({"walk": found, "scan": scanned, "sel_file": sel_file, "sel_dir": sel_dir}))
+    Ok(json!({"walk": found, "scan": scanned, "sel_file": sel_file, "sel_dir": sel_dir, "not_excl": not_excl}))
 }
 
 fn main() {
